@@ -203,6 +203,12 @@ class Hist:
                     seq.append("ap:h0:%s" % self.h(dts[0]))
             if root:
                 seq.append(r.choice(["ap:h0:%s", "ib:h0:%s:-"]) % self.h(root[0]))
+            # a child replaced by the node that FOLLOWS it (for the unique children of a document such a call can be refused:
+            # the old child must then be back exactly where it stood)
+            dk = self.kids.get(0, [])
+            if len(dk) >= 2 and r.random() < 0.6:
+                i = r.randrange(len(dk) - 1)
+                seq.append("rc:h0:%s:%s" % (self.h(dk[i + 1]), self.h(dk[i])))
             if seq:
                 return seq
         if k < 0.8 and elems:
